@@ -378,11 +378,17 @@ theorem ecAt_T (f : Nat) (hcmd : ∀ ed ln r ed', exCommand f ed ln = some (r, e
       have e1 : T ed _ := hT.loc (Loc.of_same (exRegion_same hr))
       split at h
       · cases h; exact e1
-      · simp only [] at h
-        split at h
+      · split at h
         · cases h; exact T_to hT e1 rfl rfl
-        · refine hT.trans ?_ (hcmd _ _ _ _ h)
-          exact T_to hT e1 rfl rfl
+        · simp only [] at h
+          split at h
+          · cases h; exact T_to hT e1 rfl rfl
+          · split at h
+            · cases h
+            · rename_i r2 ed2 hx
+              cases h
+              refine T_to hT (hT.trans ?_ (hcmd _ _ _ _ hx)) rfl rfl
+              exact T_to hT e1 rfl rfl
 
 theorem scan_T (f : Nat) (neg : Bool) (s : Bytes) (re : RStr) (dep : Nat)
     (hbody : ∀ ed ln r ed', exExec f ed ln = some (r, ed') → T ed ed') :
@@ -435,6 +441,9 @@ theorem ecGlob_T (f : Nat) (hbody : ∀ ed ln r ed', exExec f ed ln = some (r, e
     (ed ed' : Ed) (loc cmd arg : Bytes) (r : Int)
     (h : ecGlob (f + 1) ed loc cmd arg = some (r, ed')) : T ed ed' := by
   rw [ecGlob_eq] at h
+  by_cases hdep : ed.xgdep ≥ 7
+  · rw [if_pos hdep] at h; cases h; exact T_to hT (hT.refl _) rfl rfl
+  rw [if_neg hdep] at h
   split at h
   · cases h
   · rename_i rc b e ed1 hr
